@@ -5,7 +5,7 @@ IDS="$@"; [ -z "$IDS" ] && IDS="C01 C02 C03 C04 C05 C06 C07 C08 C09 C10 C11 C12 
 mkdir -p /verif/logs
 for id in $IDS; do
   s=$(date +%s)
-  /verif/check $id $TIER > /verif/logs/$id.$TIER.log 2>&1
+  timeout ${MAXT:-3600} /verif/check $id $TIER > /verif/logs/$id.$TIER.log 2>&1
   e=$?
   echo "$id tier=$TIER exit=$e wall=$(( $(date +%s) - s ))s $(grep -c KNOWN-FINDING /verif/logs/$id.$TIER.log) known  $(tail -1 /verif/logs/$id.$TIER.log | cut -c1-160)"
 done
